@@ -79,16 +79,35 @@ def overlaps(desc, li, msg):
     return any(a[1] > b[0] for a, b in zip(iv, iv[1:]))
 
 
-def const_prefix(desc, li, msg) -> bytes:
-    """bytes of the leading CODED-CONST parameters (gaps are zero), the tool's service key"""
+def _assemble_prefix(items, cut: bool) -> bytes:
+    """items: [(start byte, end byte, value, signed)] of the leading constants.  Two readings of
+    "constant request prefix" exist in the history of odxtools: everything written by the leading
+    constants with gaps as zero bytes (cut=False), or only the leading bytes that are completely
+    covered by constants (cut=True).  The envelope demands distinct prefixes under both."""
     buf = bytearray()
+    covered = bytearray()
+    for start, end, value, signed in items:
+        if len(buf) < end:
+            covered.extend(bytes(end - len(buf)))
+            buf.extend(bytes(end - len(buf)))
+        buf[start:end] = int(value).to_bytes(end - start, "big", signed=signed)
+        covered[start:end] = b"\x01" * (end - start)
+    if cut:
+        n = 0
+        while n < len(buf) and covered[n]:
+            n += 1
+        return bytes(buf[:n])
+    return bytes(buf)
+
+
+def const_prefix(desc, li, msg, cut=False) -> bytes:
+    """bytes of the leading CODED-CONST parameters, the tool's service key"""
+    items = []
     for p, (start, end) in zip(msg["params"], layout(desc, li, msg)):
         if p["kind"] != "CC":
             break
-        if len(buf) < end:
-            buf.extend(bytes(end - len(buf)))
-        buf[start:end] = int(p["value"]).to_bytes(end - start, "big")
-    return bytes(buf)
+        items.append((start, end, p["value"], False))
+    return _assemble_prefix(items, cut)
 
 
 def effective_services(desc, li):
@@ -119,12 +138,13 @@ def layers_containing(desc, owner_li):
 
 def prefixes_unique(desc) -> bool:
     for li in range(len(desc["layers"])):
-        seen = set()
-        for owner, s in effective_services(desc, li):
-            px = const_prefix(desc, owner, s["request"])
-            if not px or px in seen:
-                return False
-            seen.add(px)
+        for cut in (False, True):
+            seen = set()
+            for owner, s in effective_services(desc, li):
+                px = const_prefix(desc, owner, s["request"], cut)
+                if px in seen:
+                    return False
+                seen.add(px)
     return True
 
 
@@ -575,9 +595,9 @@ def xparam_info(p):
     return None
 
 
-def xml_prefix(req_el):
+def xml_prefix(req_el, cut=False):
     """constant prefix of a request: bytes of the leading CODED-CONST parameters"""
-    buf = bytearray()
+    items = []
     cursor = 0
     for p in xparams(req_el):
         t = p.get(XSI_TYPE)
@@ -590,30 +610,28 @@ def xml_prefix(req_el):
             raise Unsupported("coded constant the model does not interpret")
         start = cursor if info["pos"] is None else info["pos"]
         end = start + info["bits"] // 8
-        if len(buf) < end:
-            buf.extend(bytes(end - len(buf)))
-        signed = info["type"] == "A_INT32"
-        buf[start:end] = info["value"].to_bytes(end - start, "big", signed=signed)
+        items.append((start, end, info["value"], info["type"] == "A_INT32"))
         cursor = end
-    return bytes(buf)
+    return _assemble_prefix(items, cut)
 
 
-def pdx_prefixes(pdx):
+def pdx_prefixes(pdx, cut=False):
     """{layer short name: {service short name: prefix}}"""
     out = {}
     for l in pdx.layers():
         d = {}
         for s in eff_services(pdx, l):
             rr = s.find("REQUEST-REF")
-            d[_sn(s)] = xml_prefix(find_by_id(pdx, "REQUEST", rr.get("ID-REF")))
+            d[_sn(s)] = xml_prefix(find_by_id(pdx, "REQUEST", rr.get("ID-REF")), cut)
         out[_sn(l)] = d
     return out
 
 
 def pdx_well_formed(pdx):
-    for d in pdx_prefixes(pdx).values():
-        if len(set(d.values())) != len(d):
-            return False
+    for cut in (False, True):
+        for d in pdx_prefixes(pdx, cut).values():
+            if len(set(d.values())) != len(d):
+                return False
     return True
 
 
